@@ -974,7 +974,7 @@ func runStallCase(lg *vlog, rep *vreport, rng *vrng) {
 
 func TestVerifC03(t *testing.T) {
 	runCoreSuite(t, coreSuite{
-		prop: "C03", mon: coreMon{prefix: true, windows: true}, nQuick: 100, nThor: 2000,
+		prop: "C03", mon: coreMon{prefix: true, windows: true, reopen: true}, nQuick: 100, nThor: 2000,
 		profile: func(i int, rng *vrng) coreProfile {
 			p := defaultProfile()
 			p.name, p.stall, p.drop = "random-stall", 100, 10
